@@ -23,6 +23,7 @@
 #define VC_LOOP_INVARIANT(...)
 #define VC_LOOP_ASSIGNS(...)
 #define VC_DECREASES(...)
+#define VC_W_ONE_BYTE_CONTRACT(...)
 
 #else /* BINSON_C_LIGHT_VERIF */
 
@@ -225,6 +226,82 @@ extern size_t vc_k;
     ((p)->buffer_used >= (o_used) || (o_err) != BINSON_ERROR_NONE)
 #define VC_ADV_POST_VERIFY_FALSE(ret, scan_flags)                                                   \
     ((((scan_flags) & VC_ADV_VERIFY) != 0) ==> !(ret))
+
+/*---------------------------------------------------------------------------*/
+/* Writer                                                                     */
+/*---------------------------------------------------------------------------*/
+
+/* ghost byte index (arbitrary but fixed), used instead of quantifiers over buffer contents */
+extern size_t vc_j;
+
+#define VC_W_PTRS(w)                                                                                \
+    (VC_FRESH(w, sizeof(*(w))) &&                                                                   \
+     ((w)->buffer == NULL ||                                                                        \
+      ((w)->buffer_size <= VC_MAX_BUF && VC_FRESH((w)->buffer, (w)->buffer_size))))
+
+/* frame of _write: counter, error flag and - only if no error is latched, there is a buffer and
+ * the piece fits - exactly the len bytes behind the counter. Every other byte of the destination
+ * (and everything else) is left alone: "stores nothing outside the capacity", "nothing once an
+ * error is set" and "the bytes before the counter are never touched" are all this frame. */
+#define VC_W_FRAME_PIECE(w, len)                                                                    \
+    (w)->buffer_used, (w)->error_flags;                                                             \
+    ((w)->buffer != NULL && (w)->error_flags == BINSON_ERROR_NONE &&                                \
+     VC_W_FITS((w)->buffer_used, len, (w)->buffer_size)):                                           \
+        __CPROVER_object_upto((w)->buffer + (w)->buffer_used, len)
+/* frame of a call that appends a token in several pieces: nothing before the counter */
+#define VC_W_FRAME(w)                                                                               \
+    (w)->buffer_used, (w)->error_flags;                                                             \
+    ((w)->buffer != NULL && (w)->error_flags == BINSON_ERROR_NONE &&                                \
+     (w)->buffer_used <= (w)->buffer_size):                                                         \
+        __CPROVER_object_from((w)->buffer + (w)->buffer_used)
+
+#define VC_W_SAME_CONFIG(w)                                                                         \
+    ((w)->buffer == VC_OLD((w)->buffer) && (w)->buffer_size == VC_OLD((w)->buffer_size))
+
+/* does a piece of len bytes fit behind the counter value used (no wrap, not past the capacity)? */
+#define VC_W_FITS(used, len, cap) ((size_t) ((used) + (len)) >= (used) && (size_t) ((used) + (len)) <= (cap))
+
+/* i-th little-endian byte of the two's complement image of v */
+#define VC_LE_BYTE(v, i)  ((uint8_t) (((uint64_t) (v)) >> (8 * (i))))
+
+/* Post-condition shared by _write and every write function that appends exactly one piece:
+ *   o_used/o_err  counter and error flag at entry, len = size of the piece
+ * counter always advances by len; the piece is stored iff no error was latched, there is a
+ * buffer and it fits; then and only then the error flag stays NONE; an error is never cleared */
+#define VC_W_POST_COUNTER(w, o_used, len)   ((w)->buffer_used == (size_t) ((o_used) + (len)))
+#define VC_W_POST_ERROR(w, o_used, o_err, len)                                                      \
+    (((w)->buffer == NULL ==> (w)->error_flags == BINSON_ERROR_NULL) &&                             \
+     ((w)->buffer != NULL ==>                                                                       \
+      (w)->error_flags == (VC_W_FITS(o_used, len, (w)->buffer_size) ? (o_err) : BINSON_ERROR_RANGE)))
+
+/* --- canonical token encoding (specification side) --- */
+#define VC_WLOG(v)        ((VC_WIDTH(v) == 1) ? 0 : (VC_WIDTH(v) == 2) ? 1 : (VC_WIDTH(v) == 4) ? 2 : 3)
+#define VC_T_SIMPLE(t)    ((t) == BINSON_TYPE_OBJECT || (t) == BINSON_TYPE_OBJECT_END ||           \
+                           (t) == BINSON_TYPE_ARRAY || (t) == BINSON_TYPE_ARRAY_END ||              \
+                           (t) == BINSON_TYPE_BOOLEAN)
+#define VC_T_BLOB(t)      ((t) == BINSON_TYPE_STRING || (t) == BINSON_TYPE_BYTES)
+#define VC_T_VALID(t)     (VC_T_SIMPLE(t) || VC_T_BLOB(t) || (t) == BINSON_TYPE_INTEGER ||          \
+                           (t) == BINSON_TYPE_DOUBLE)
+/* exact encoded size of one token */
+#define VC_TOKEN_LEN(t, val)                                                                        \
+    (VC_T_SIMPLE(t) ? (size_t) 1 :                                                                  \
+     ((t) == BINSON_TYPE_INTEGER) ? (size_t) (1 + VC_WIDTH((val)->integer_value)) :                 \
+     ((t) == BINSON_TYPE_DOUBLE) ? (size_t) 9 :                                                     \
+     VC_T_BLOB(t) ? (size_t) (1 + VC_WIDTH((int64_t) (val)->bytes_value.bsize) + (val)->bytes_value.bsize) : \
+     (size_t) 0)
+/* j-th byte of the descriptor (type byte, then little-endian integer / length) of a token */
+#define VC_DESC_BYTE(base, v, j)                                                                    \
+    (((j) == 0) ? (uint8_t) ((base) + VC_WLOG(v)) : VC_LE_BYTE(v, (j) - 1))
+/* contract of the five one-byte tokens */
+#define VC_W_ONE_BYTE_CONTRACT(w, byte)                                                             \
+    VC_REQUIRES(VC_W_PTRS(w))                                                                       \
+    VC_ASSIGNS(VC_W_FRAME(w))                                                                       \
+    VC_ENSURES(VC_W_SAME_CONFIG(w))                                                                 \
+    VC_ENSURES(VC_W_POST_COUNTER(w, VC_OLD((w)->buffer_used), 1))                                   \
+    VC_ENSURES(VC_W_POST_ERROR(w, VC_OLD((w)->buffer_used), VC_OLD((w)->error_flags), 1))           \
+    VC_ENSURES(VC_RET == ((w)->error_flags == BINSON_ERROR_NONE))                                   \
+    VC_ENSURES(((w)->error_flags == BINSON_ERROR_NONE && vc_j == 0) ==>                             \
+               (w)->buffer[VC_OLD((w)->buffer_used) + vc_j] == (byte))
 
 #endif /* BINSON_C_LIGHT_VERIF */
 
